@@ -1616,7 +1616,7 @@ class Alarm(Component):
         trigger = self.get("TRIGGER")
         if trigger is None:
             return "START"
-        return trigger.params.get("RELATED", "START")
+        return trigger.params.get("RELATED", "START").upper()
 
     @TRIGGER_RELATED.setter
     def TRIGGER_RELATED(self, value: str):
